@@ -66,6 +66,11 @@ def run_case(job):
                          "proj/in/sub/b.cmake": fsbox.cmake_content("b.cmake"), "proj/shared/impl.cmake": fsbox.cmake_content("impl")})
                 os.symlink("find_zlib.cmake", b.path("work", "proj", "in", "FindZLIB.cmake"))
                 os.symlink(os.path.join("..", "..", "shared", "impl.cmake"), b.path("work", "proj", "in", "sub", "Impl.cmake"))
+            elif kind == "many":
+                # nine modules in one directory, the first one (in sorted order) by far the largest
+                big = "".join(f"#[[[\n# Function {n}.\n#]]\nfunction(big_fn_{n} a b)\nendfunction()\n" for n in range(150))
+                b.build({"proj/in/a00_big.cmake": big, **{f"proj/in/m{n:02d}.cmake": fsbox.cmake_content(f"m{n}") for n in range(1, 9)},
+                         "proj/in/sub/z.cmake": fsbox.cmake_content("z")})
             elif kind == "quietfile":
                 b.build({"proj/in/lone.cmake": "set(ONLY_PLAIN 1)\n", "proj/in/other.cmake": fsbox.cmake_content("other")})
             else:
@@ -73,15 +78,19 @@ def run_case(job):
             b.build({"proj/readme.txt": "outside the input\n", "../home/dot.txt": "home\n"})
             with open(b.path("work", "s.yaml"), "w") as f:
                 f.write(SETTINGS[sname] or "{}\n")
-        inp = "proj/in" if kind in ("tree", "prefixdirs", "warn", "quiet", "filelink") else "proj/in/lone.cmake"
+        inp = "proj/in" if kind in ("tree", "prefixdirs", "warn", "quiet", "filelink", "many") else "proj/in/lone.cmake"
         if outmode.endswith("+symlink"):
             # the input is reached through a symbolic link to its directory
             for b in (box, box2):
                 os.symlink(os.path.join("proj", "in"), b.path("work", "lnk"))
-            inp = "lnk" if kind in ("tree", "prefixdirs", "warn", "quiet", "filelink") else "lnk/lone.cmake"
+            inp = "lnk" if kind in ("tree", "prefixdirs", "warn", "quiet", "filelink", "many") else "lnk/lone.cmake"
             outmode = outmode[:-len("+symlink")]
         out = {"abs": box.path("outside", "o"), "rel": "o/p", "nested": "proj/in/_docs", "parent": "proj",
-               "prepop": "o", "nested-prefix": "proj/in/api"}[outmode]
+               "prepop": "o", "nested-prefix": "proj/in/api", "rel-blank": "api ", "rel-blank-lead": " generated",
+               "abs-blank": box.path("outside", "reference manual ")}[outmode]
+        if "blank" in outmode:       # the sibling without the blank exists and holds hand-written pages
+            for b in (box, box2):
+                b.build({"api/index.rst": "hand-written\n", "api/a.rst": "hand-written page\n", "generated/keep.txt": "keep\n"})
         foreign = {}
         if outmode == "prepop":
             foreign = {"o/foreign.txt": "keep me\n", "o/notes/keep.rst": "unrelated page\n", "o/a.rst": "stale page that is longer than anything generated " * 40 + "\n",
@@ -97,8 +106,22 @@ def run_case(job):
         outrel = os.path.relpath(out if os.path.isabs(out) else box.path("work", out), box.root)
         before = box.snapshot()
         argv = ["-s", "s.yaml"] + (["-r"] if recursive else [])
-        r1 = box.run(argv + ["-o", out, inp])
+        # the temporary directory is an input of the run, too: an empty one on ANOTHER file system than the sandbox
+        import tempfile
+        other_fs = "/tmp" if box.root.startswith("/dev/shm") else ("/dev/shm" if os.path.isdir("/dev/shm") else None)
+        try:
+            tmpd = tempfile.mkdtemp(prefix="c18tmp-", dir=other_fs) if other_fs else None
+        except OSError:
+            tmpd = None
+        r1 = box.run(argv + ["-o", out, inp], env={"TMPDIR": tmpd} if tmpd else None)
         after = box.snapshot()
+        if tmpd:
+            left = sorted(os.listdir(tmpd))
+            import shutil as _sh
+            _sh.rmtree(tmpd, ignore_errors=True)
+            if left:
+                msgs.append(f"outside: the run left {len(left)} file(s) with suffix {sorted({os.path.splitext(x)[1] for x in left})} in the "
+                            f"temporary directory (which is on another file system than the output directory)")
         if r1["status"] != 0:
             msgs.append(f"error: run with -o failed: {r1['exc'] or r1['stdout'][-200:]}")
         ch = diff(before, after)
@@ -244,6 +267,12 @@ def run(ctx):
                     jobs.append(("tree", parents, a, recursive, outmode, sname))
     for outmode, sname in itertools.product(OUTMODES, SETTINGS):
         jobs.append(("file", None, None, False, outmode, sname))
+    for recursive in (True, False):
+        jobs.append(("many", None, None, recursive, "abs", "default"))
+        jobs.append(("many", None, None, recursive, "rel", "prefix+ext"))
+    for outmode in ("rel-blank", "rel-blank-lead", "abs-blank"):
+        jobs.append(("file", None, None, False, outmode, "default"))
+        jobs.append(("quiet", None, None, True, outmode, "default"))
     for outmode in ("abs", "rel", "nested", "prepop"):
         for recursive in (True, False):
             jobs.append(("warn", None, None, recursive, outmode, "default"))
